@@ -1,4 +1,4 @@
-//go:build !blackbox
+//go:build !nooverlay
 
 package main
 
